@@ -305,7 +305,7 @@ func c11Child() {
 func runC11(t *Trace, r *Rng, tier string, _ []string) {
 	rounds := 5
 	if tier == "thorough" {
-		rounds = 60
+		rounds = 30
 	}
 	self, err := os.Executable()
 	must(err)
